@@ -832,6 +832,9 @@ pub struct Sim {
     pub pending_drop: Option<usize>,
     /// `MapLate`: (client, slot) -> tick whose update message carries the mapping (None until sent).
     pub late_map_tick: BTreeMap<(usize, u8), Option<u32>>,
+    /// Messages that were still in flight to a client when its last session ended (a transport
+    /// may hand such stragglers over while the next connection is being established).
+    pub stragglers: BTreeMap<usize, Vec<(usize, Bytes)>>,
     pub acks: AckModel,
     /// (etag, ctag) -> (version, first tick at which that version was observable) of the last edit.
     pub last_edit: BTreeMap<(u8, u8), (u8, Option<u32>)>,
@@ -878,6 +881,7 @@ impl Sim {
             send_forced_by_restart: false,
             pending_drop: None,
             late_map_tick: BTreeMap::new(),
+            stragglers: BTreeMap::new(),
             acks: AckModel::default(),
             last_edit: BTreeMap::new(),
             once_sent: BTreeMap::new(),
@@ -953,10 +957,34 @@ impl Sim {
             .world_mut()
             .resource_mut::<RepliconClient>()
             .set_status(RepliconClientStatus::Connecting);
+        // stragglers of the previous session arrive while the new connection is being set up
+        if let Some(late) = self.stragglers.remove(&c) {
+            let mut client = self.clients[c].app.world_mut().resource_mut::<RepliconClient>();
+            for (ch, bytes) in late {
+                client.insert_received(ch, bytes);
+            }
+        }
         for _ in 0..frames {
             let _ = self.client_frame(c);
         }
         self.connect(c);
+    }
+
+    /// The connection is lost, the client's transport retries (`Connecting`) for a frame and
+    /// then gives up.
+    pub fn disconnect_slowly(&mut self, c: usize) {
+        if let Some(conn) = self.clients[c].conn.take() {
+            if self.server.world().get_entity(conn).is_ok() {
+                self.server.world_mut().entity_mut(conn).despawn();
+            }
+        }
+        self.clients[c]
+            .app
+            .world_mut()
+            .resource_mut::<RepliconClient>()
+            .set_status(RepliconClientStatus::Connecting);
+        let _ = self.client_frame(c);
+        self.disconnect(c);
     }
 
     /// The transport closes `c`'s connection inside the server's next frame, after the library
@@ -983,6 +1011,10 @@ impl Sim {
         if let Some(mut inbox) = cl.app.world_mut().get_resource_mut::<Inbox>() {
             inbox.connect = false;
             inbox.msgs.clear();
+        }
+        let late: Vec<(usize, Bytes)> = cl.s2c.iter().enumerate().flat_map(|(ch, q)| q.iter().map(move |m| (ch, m.bytes.clone()))).collect();
+        if !late.is_empty() {
+            self.stragglers.insert(c, late);
         }
         for q in cl.s2c.iter_mut().chain(cl.c2s.iter_mut()) {
             q.clear();
